@@ -31,6 +31,27 @@ func genWS(cfg Config, emit func(string, bool, []string)) {
 		var ops []string
 		add := func(f string, a ...any) { ops = append(ops, fmt.Sprintf(f, a...)) }
 		nch := 2 + r.IntN(7)
+		if c%5 == 4 {
+			// a channel that was returned (and removed) is added again after a Merge restored the set's
+			// size: the second Add must take effect
+			nch = 4
+			add("chans %d", nch)
+			add("add 1")
+			add("add 0")
+			add("closeat 0 %d", 20+r.IntN(30))
+			add("wait 0 -")
+			add("merge %s", []string{"2", "2,3"}[r.IntN(2)])
+			if r.IntN(2) == 0 {
+				add("add 0")
+			} else {
+				add("add 3,0")
+			}
+			add("hasall")
+			add("wait %d %d", []int{0, 50}[r.IntN(2)], 400+r.IntN(50))
+			add("hasall")
+			emit("ws readd", true, ops)
+			continue
+		}
 		add("chans %d", nch)
 		now := 0               // virtual ms
 		used := map[int]bool{} // instants already used by some event (avoid ties)
@@ -349,8 +370,13 @@ func (e *wsExec) Do(o *Out, f []string) string {
 	case "hasall":
 		var p []string
 		for i, c := range e.chans {
-			if e.ws.Has(c) {
+			has := e.ws.Has(c)
+			if has {
 				p = append(p, strconv.Itoa(i))
+			}
+			if has != e.member[i] {
+				o.Fail("C20", "membership-after-add-merge-clear", nil, fmt.Sprintf("Has(channel %d)=%v, but the channel was %s", i, has, map[bool]string{true: "added (or merged in) and not returned since", false: "never added, or returned / cleared since"}[e.member[i]]))
+				e.member[i] = has
 			}
 		}
 		if len(p) == 0 {
